@@ -20,8 +20,8 @@ def build(tier, only, chk):
                     continue
                 jobs.append(Job('c06.%s.F.len0-%d.%s' % (fmt, lmax, 'be' if be else 'le'),
                                 C.c06_functional(fmt, lmax), SRC[fmt], be=be, unwind=max(70, lmax + H + 16),
-                                unwindset=WALKER, timeout=3000 if lmax > 64 else 600, backend='cadical',
-                                object_bits=12, mem_gb=24,
+                                unwindset=WALKER, timeout=3000 if lmax > 64 else 600, backend=('cadical' if lmax <= 64 else None),
+                                object_bits=12, mem_gb=(12 if lmax <= 64 else 40),
                                 meta={'format': fmt, 'payload_length': 'symbolic 0..%d' % lmax,
                                       'identifier': 'all 2^32', 'variant': 'both', 'background': 'all contents',
                                       'layout': 'maximum-size object + 8 guard bytes'}))
